@@ -166,6 +166,27 @@ def strat_charts(ctx: Ctx):
         lambda c: {"spec": c["spec"], "res": c["res"], "tempo": c["tempo"]})
 
 
+def _unsorted_variant(spec):
+    """The same chart with the star-power lines of every track in reverse order among themselves, likewise the
+    track-event lines and the global events (the note lines stay where they are).  A parser may refuse it (an
+    event running backwards across a tempo change, C11); if it is accepted, the chart's times must be monotone."""
+    import copy
+    v = copy.deepcopy(spec)
+    changed = False
+    for h, items in v["tracks"].items():
+        for kind in ("S", "E"):
+            pos = [i for i, it in enumerate(items) if it[1] == kind]
+            if len({items[i][0] for i in pos}) >= 2:
+                vals = [items[i] for i in reversed(pos)]
+                for i, it in zip(pos, vals):
+                    items[i] = it
+                changed = True
+    if len({e[0] for e in v.get("events", [])}) >= 2:
+        v["events"] = list(reversed(v["events"]))
+        changed = True
+    return v if changed else None
+
+
 def check_charts(ctx: Ctx, case) -> None:
     tm = TempoModel(case["res"], case["tempo"])
     rc = case
@@ -174,6 +195,25 @@ def check_charts(ctx: Ctx, case) -> None:
     except Exception as e:  # noqa: BLE001
         ctx.fail("chart-parses", f"well-formed chart rejected: {type(e).__name__}: {e}", rc)
         return
+    r = _relations(ctx, chart, tm, rc)
+    var = _unsorted_variant(case["spec"])
+    if var is not None:
+        rc2 = dict(case, spec=var, variant="S / E lines and global events in reverse order")
+        try:
+            chart2 = L.parse(S.render(var))
+        except Exception:  # noqa: BLE001  (refusing such a body is allowed; which error class is C18's subject)
+            ctx.classes["unsorted_variant_refused"] += 1
+        else:
+            ctx.classes["unsorted_variant_accepted"] += 1
+            _relations(ctx, chart2, tm, rc2)
+    ticks, segs, shared, npairs = r
+    ctx.note([case["res"], case["tempo"], ticks], nontrivial=len(segs) >= 2 and shared > 0,
+             classes=_regime_classes(tm) + [f"tracks_{len(case['spec']['tracks'])}"],
+             sample={"res": case["res"], "tempo": case["tempo"][:5], "ticks": ticks[:16],
+                     "pairs": npairs})
+
+
+def _relations(ctx: Ctx, chart, tm, rc):
     pairs = []  # (tick, us, where)
     st_ = chart.sync_track
     for e in st_.bpm_events:
@@ -224,10 +264,7 @@ def check_charts(ctx: Ctx, case) -> None:
         segs.add(tm.governing_fast(t0))
         segs.add(tm.governing_fast(t1))
     ticks = sorted({p[0] for p in pairs})
-    ctx.note([case["res"], case["tempo"], ticks], nontrivial=len(segs) >= 2 and shared > 0,
-             classes=_regime_classes(tm) + [f"tracks_{len(case['spec']['tracks'])}"],
-             sample={"res": case["res"], "tempo": case["tempo"][:5], "ticks": ticks[:16],
-                     "pairs": len(pairs)})
+    return ticks, segs, shared, len(pairs)
 
 
 PARTS: list[Part] = [
